@@ -415,7 +415,8 @@ octosql "SELECT * FROM plugins.plugins"`,
 				output == "live_table",
 			)
 		case "csv", "json":
-			if len(orderByExpressions) > 0 || (limitExpression != nil && !physicalPlan.Schema.NoRetractions) {
+			// These formats can't express retractions, so a retracting plan is consolidated first.
+			if len(orderByExpressions) > 0 || !physicalPlan.Schema.NoRetractions {
 				executionPlan = nodes.NewOrderSensitiveTransform(executionPlan, orderByExpressions, logical.DirectionsToMultipliers(outputOptions.OrderByDirections), limitExpression, physicalPlan.Schema.NoRetractions)
 			} else if limitExpression != nil {
 				executionPlan = nodes.NewLimit(executionPlan, *limitExpression)
